@@ -1361,6 +1361,20 @@ def __is_method_defined_in_class(class_: type | types.UnionType, method: object)
     return class_ == get_class_that_defined_method(method)
 
 
+def __is_ignored_method(method: object) -> bool:
+    """Checks whether the method is listed in the configured ``ignore_methods``.
+
+    Args:
+        method: The method to check.
+
+    Returns:
+        True, if the method's fully-qualified name is ignored by configuration.
+    """
+    func = inspect.unwrap(method)  # type: ignore[arg-type]
+    qualified_name = f"{getattr(func, '__module__', None)}.{getattr(func, '__qualname__', '')}"
+    return qualified_name in config.configuration.ignore_methods
+
+
 @dataclasses.dataclass
 class CallableData:
     """Provides all information on callables.
@@ -1686,6 +1700,7 @@ def __analyse_method(
         or __should_skip_by_visibility(method_name.rpartition(".")[2], add_to_test=add_to_test)
         or __is_constructor(method_name)
         or not __is_method_defined_in_class(type_info.raw_type, method)
+        or __is_ignored_method(method)
     ):
         LOGGER.debug("Skipping method %s from analysis", method_name)
         return
